@@ -445,7 +445,12 @@ func assignments(n int) [][]uint32 {
 // sleeps longer - reports the disconnect of C late.  After every step every task variant
 // for C and for D must arrive at the first hop of the route in force, wrapped for that route.
 func runLinkHistory(r *ev.Run) {
-	for _, ids := range [][]uint32{{0xa1, 0xb2, 0xc3, 0xd4}, {0x80000001, 0x7fffffff, 0xdeadbeef, 0xffffffff}} {
+	type variant struct {
+		ids    []uint32
+		dbfail bool // the database refuses the link row while C is being moved below B
+	}
+	for _, vr := range []variant{{[]uint32{0xa1, 0xb2, 0xc3, 0xd4}, false}, {[]uint32{0x80000001, 0x7fffffff, 0xdeadbeef, 0xffffffff}, false}, {[]uint32{0xa1, 0xb2, 0xc3, 0xd4}, true}} {
+		ids := vr.ids
 		w, err := build(ids, []int{-1, -1, 0, 2})
 		if err != nil {
 			r.Violate("history/build", err.Error(), map[string]any{"ids": fmt.Sprintf("%08x", ids)})
@@ -458,7 +463,17 @@ func runLinkHistory(r *ev.Run) {
 		inner := demonwire.Register(ids[2], k, iv, demonwire.DefaultMeta(ids[2]))
 		b := &demonwire.W{}
 		b.I32(agent.DEMON_PIVOT_SMB_CONNECT).I32(1).Bytes(inner)
-		if res := w.send(1, demonwire.Sub{Cmd: agent.COMMAND_PIVOT, Body: b.B}); res.Panic != nil {
+		undo := func() {}
+		if vr.dbfail {
+			// routing is what the teamserver holds in memory about who is connected below whom:
+			// it follows B's report whether or not the link row could be written
+			if undo, err = w.ts.DBFault("TS_Links", "INSERT"); err != nil {
+				r.Violate("harness/db-fault", err.Error(), nil)
+			}
+		}
+		res := w.send(1, demonwire.Sub{Cmd: agent.COMMAND_PIVOT, Body: b.B})
+		undo()
+		if res.Panic != nil {
 			r.Violate("history/panic/reconnect", fmt.Sprint(res.Panic), nil)
 		}
 		if c := w.ts.Agent(ids[2]); c == nil || c.Pivots.Parent == nil || c.Pivots.Parent.NameID != fmt.Sprintf("%08x", ids[1]) {
